@@ -10,7 +10,9 @@
 //   their parent through the thread-local task-set stack), cancel0 sets are cancelled before the run.
 //   Output: steps t:site@set ... | results t:tag=(arg*1000+stamp) ... | blocked | sets out:canc:guard ... wr W q Q | status S
 // D (decisions of the real code under forced load, real pool threads):
-//   D <cls> <force> <skip> <nthr> <blockers> <preOut> <canceled> <recursive> <depth> <prlf2> <mult> <bulk n>
+//   D <cls> <force> <skip> <nthr> <blockers> <preOut> <canceled> <recursive> <depth> <prlf2> <mult> <bulk n> <casc>
+//   casc: 0 the set stands alone and is cancelled directly; 1 the set is a ParentCascadeCancel::kOn child and <canceled> means parent.cancel();
+//         2 as 1, but a task of the parent has thrown before (the parent's canceled_ is already set through the exception path, which does not cascade)
 //   cls: 0 TaskSet, 1 ConcurrentTaskSet(kLightweight), 2 ConcurrentTaskSet(kHeavy), 3 ThreadPool
 //   Output: D out=<outstanding before the call> wr=.. n=.. plf=.. lf=.. canc=.. | incall=<functors run on the caller during the call>
 //             fout=<outstanding seen by the first such functor - out, or 9> aout=<outstanding after the call - out> ran=<functors run in total> other=<functors run on the caller thread during the call: same as incall>
@@ -312,18 +314,35 @@ struct DState {
 static void decision(const std::vector<std::string>& parts) {
   std::istringstream hd(parts[0]);
   std::string mode;
-  int cls, force, skip, nthr, blockers, preOut, canceled, recursive, depth, prlf2, mult, bulk;
-  hd >> mode >> cls >> force >> skip >> nthr >> blockers >> preOut >> canceled >> recursive >> depth >> prlf2 >> mult >> bulk;
+  int cls, force, skip, nthr, blockers, preOut, canceled, recursive, depth, prlf2, mult, bulk, casc = 0;
+  hd >> mode >> cls >> force >> skip >> nthr >> blockers >> preOut >> canceled >> recursive >> depth >> prlf2 >> mult >> bulk >> casc;
   static DState D;
   dispenso::ThreadPool pool(static_cast<size_t>(nthr));
   std::atomic<bool> callerGo{false}, callerDone{false};
   dispenso::TaskSet* ts = nullptr;
   dispenso::ConcurrentTaskSet* cts = nullptr;
-  if (cls == 0) ts = new dispenso::TaskSet(pool, dispenso::ParentCascadeCancel::kOff, mult);
-  if (cls == 1) cts = new dispenso::ConcurrentTaskSet(pool, dispenso::ParentCascadeCancel::kOff, mult, dispenso::TaskCost::kLightweight);
-  if (cls == 2) cts = new dispenso::ConcurrentTaskSet(pool, dispenso::ParentCascadeCancel::kOff, mult, dispenso::TaskCost::kHeavy);
+  dispenso::ConcurrentTaskSet* parent = nullptr;
+  auto cascade = dispenso::ParentCascadeCancel::kOff;
+  if (casc && cls != 3) {
+    parent = new dispenso::ConcurrentTaskSet(pool, dispenso::ParentCascadeCancel::kOff, mult, dispenso::TaskCost::kLightweight);
+    dispenso::detail::pushThreadTaskSet(parent);
+    cascade = dispenso::ParentCascadeCancel::kOn;
+  }
+  if (cls == 0) ts = new dispenso::TaskSet(pool, cascade, mult);
+  if (cls == 1) cts = new dispenso::ConcurrentTaskSet(pool, cascade, mult, dispenso::TaskCost::kLightweight);
+  if (cls == 2) cts = new dispenso::ConcurrentTaskSet(pool, cascade, mult, dispenso::TaskCost::kHeavy);
+  if (parent) dispenso::detail::popThreadTaskSet();
+  if (parent && casc == 2) {
+    // a task of the parent throws and completes: the parent is cancelled through the exception path
+    parent->schedule([]() { throw 1; }, dispenso::ForceQueuingTag());
+    try {
+      parent->wait();
+    } catch (...) {
+    }
+  }
   D.base = ts ? static_cast<dispenso::TaskSetBase*>(ts) : static_cast<dispenso::TaskSetBase*>(cts);
   long out0 = 0, wr0 = 0, n0 = 0, plf0 = 0, lf0 = 0;
+  int canc0 = 0;
   auto fn = []() {
     if (D.inCall.load() && std::this_thread::get_id() == D.caller) {
       if (D.ranInCall.fetch_add(1) == 0 && D.base) D.firstOut.store(D.base->outstandingTaskCount_.load());
@@ -336,6 +355,7 @@ static void decision(const std::vector<std::string>& parts) {
     if (D.base) {
       out0 = D.base->outstandingTaskCount_.load();
       lf0 = D.base->taskSetLoadFactor_;
+      canc0 = D.base->canceled_.load() ? 1 : 0;
     }
     wr0 = pool.workRemaining_.load();
     n0 = pool.numThreads_.load();
@@ -380,7 +400,9 @@ static void decision(const std::vector<std::string>& parts) {
     if (ts) ts->schedule([]() {}, dispenso::ForceQueuingTag()); else cts->schedule([]() {}, dispenso::ForceQueuingTag());
   }
   std::this_thread::sleep_for(std::chrono::milliseconds(3));
-  if (canceled && D.base) D.base->cancel();
+  if (canceled && D.base) {
+    if (parent) parent->cancel(); else D.base->cancel();
+  }
   if (callerOnPool) {
     callerGo.store(true);
     for (int spin = 0; spin < 100000 && !callerDone.load(); ++spin) std::this_thread::sleep_for(std::chrono::microseconds(50));
@@ -396,11 +418,12 @@ static void decision(const std::vector<std::string>& parts) {
     std::this_thread::sleep_for(std::chrono::milliseconds(2));
   }
   long fout = D.firstOut.load() == -1000000 ? 9 : D.firstOut.load() - out0;
-  printf("D out=%ld wr=%ld n=%ld plf=%ld lf=%ld canc=%d | incall=%d fout=%ld aout=%ld ran=%d\n", out0, wr0, n0, plf0, lf0, canceled, incall, fout, aout - out0,
-         D.ranTotal.load());
+  printf("D out=%ld wr=%ld n=%ld plf=%ld lf=%ld canc=%d | incall=%d fout=%ld aout=%ld ran=%d api=%d\n", out0, wr0, n0, plf0, lf0, D.base ? canc0 : 0, incall, fout,
+         aout - out0, D.ranTotal.load(), (canceled && D.base) ? 1 : 0);
   fflush(stdout);
   delete ts;
   delete cts;
+  delete parent;
 }
 
 int main() {
